@@ -40,3 +40,17 @@ Theorem C19_acceptance_attained : forall twopi lams s, lams <> [] ->
   exists lam, In lam lams /\ make_zaccept ROps twopi lams s = twopi / lam * s.
 Proof. exact zaccept_attained. Qed.
 Print Assumptions C19_acceptance_attained.
+
+(* the value formula above is that of the CODE: the element formulas regenerated from the current text of
+   sasmodels/sesans.py (Gen/C19_code.v; _set_hankel evaluated on symbolic arrays, apply as two dot products)
+   are the model's, on the reals and on binary64 alike *)
+From SM Require Import Gen.C19_code C19.Translated.
+Theorem C19_code_is_model : forall (T : Type) (O : Ops T) twopi pts lam zaccept j, translated = true ->
+  code_P O twopi pts lam zaccept j = P O twopi pts lam zaccept j.
+Proof. exact @code_P_is_model. Qed.
+Print Assumptions C19_code_is_model.
+Theorem C19_code_value : forall twopi (pts : list (Pt (T:=R))) lam zaccept j, translated = true -> twopi <> 0 ->
+  code_P ROps twopi pts lam zaccept j =
+  / twopi * Rsum (map (fun p => ((if accepted ROps twopi (p_q p) lam zaccept then nth j (p_j0 p) 0 else 0) - 1) * p_I p * p_q p * p_dq p) pts).
+Proof. intros twopi pts lam zaccept j Ht H. rewrite (code_P_is_model ROps twopi pts lam zaccept j Ht). exact (P_value twopi pts lam zaccept j H). Qed.
+Print Assumptions C19_code_value.
